@@ -1196,7 +1196,10 @@ impl<'a, W: AsRef<[u64]>> YamlCursor<'a, W> {
                 _ => self.find_scalar_end(start),
             }
         };
-        Some(&self.text[start..end.min(self.text.len())])
+        // The container end is derived from the next indexed node, which for
+        // some flow shapes (a flow mapping used as a key, `[[[]],{{a: []},b: []}]`)
+        // lies before `start`; `get` answers `None` there instead of panicking.
+        self.text.get(start..end.min(self.text.len()))
     }
 
     fn find_double_quote_end(&self, start: usize) -> usize {
